@@ -87,7 +87,7 @@ def canon_err(e, sess):
         return ['TransportExc', sess.t.writes[-1][0].hex() if sess.t.writes else '']
     return [type(e).__name__, str(e)[:80]]
 
-def run_impl(case, bound=5.0):
+def run_impl(case, bound=2.0):
     """Pre-filled queue, scripted transport, real Session.run in its own thread."""
     from harness import fakesession as fs
     from ncclient.transport.session import NetconfBase
@@ -129,7 +129,7 @@ def run_impl(case, bound=5.0):
     calls = [(d, a) for d, a in s.t.writes]
     return dict(wire=bytes(s.t.wire).hex(), errors=errs, remaining=remaining, completed=completed,
                 ncalls=len(calls), calls=calls, alive_after_error=alive_after_error, exited=exited,
-                connected_after=connected_after, refused=refused, ready_polls=len(s.t.ready_log), close_calls=s.close_calls)
+                connected_after=connected_after, refused=refused, ready_polls=len(s.t.ready_log), close_calls=s.close_calls, events=list(s.t.events))
 
 def impl_status(obs):
     if obs['errors']:
@@ -171,6 +171,14 @@ def oracle(case, obs):
     for (d1, a1), (d2, _) in zip(calls, calls[1:]):
         if a1[0] == 'accept' and a1[1] is not None and a1[1] < len(d1) and d2 != d1[a1[1]:]:
             out.append(('write call does not resubmit the unsent tail', d1[a1[1]:].hex(), d2.hex()))
+    # a frame is started only right after the transport said it is ready to send
+    ev = obs['events']
+    for i, e in enumerate(ev):
+        if e[0] == 'write':
+            k = e[1]
+            new_frame = k == 0 or (calls[k - 1][1][0] == 'accept' and (calls[k - 1][1][1] is None or calls[k - 1][1][1] >= len(calls[k - 1][0])))
+            if new_frame and (i == 0 or ev[i - 1] != ('ready', True)):
+                out.append(('a frame was started without a positive _send_ready() answer', ('ready', True), ev[i - 1] if i else None))
     scripted_fail = any(a[0] != 'accept' for _, a in calls)
     if not scripted_fail:
         if obs['errors']:
@@ -285,7 +293,7 @@ def compositions(n):
             yield [first] + rest
 
 # ---------- concurrent submitters ----------
-def run_concurrent(case, bound=10.0):
+def run_concurrent(case, bound=3.0):
     from harness import fakesession as fs
     from ncclient.transport.session import NetconfBase
     s = fs.make_session(capabilities=[])
@@ -316,7 +324,9 @@ def run_concurrent(case, bound=10.0):
     s.start()
     barrier.wait(bound)
     for t in ths: t.join(bound)
-    done.wait(bound)
+    t0 = fs.PRIMS.monotonic()
+    while not done.is_set() and not rec.errors and fs.PRIMS.monotonic() - t0 < bound:
+        done.wait(0.002)
     sys.setswitchinterval(old_si)
     errs = [type(e).__name__ for e in rec.errors]
     completed = done.is_set()
@@ -402,6 +412,16 @@ def report(ctx, case, obs, probs, mism):
     for what, exp, act in probs:
         ctx.fail(case, what, sig=sg, expected=exp, actual=act)
 
+def too_many(ctx, limit=12):
+    """The run is already decided (violation / broken tie): do not spend the bound of every remaining case."""
+    new = [f for f in ctx.failures if f.get('sig') is None]
+    if len(new) + len(ctx.disagreements) >= limit:
+        if not getattr(ctx, '_cut', False):
+            ctx._cut = True
+            ctx.note('stopped generating cases after %d failures/disagreements' % (len(new) + len(ctx.disagreements)))
+        return True
+    return False
+
 def run(ctx):
     import os, json, glob
     from vlib import paths
@@ -428,6 +448,7 @@ def run(ctx):
     outs = ctx.model.batch([model_call(c) for c in single]) if ctx.model else [None] * len(single)
     wires = []
     for case, mo in zip(single, outs):
+        if too_many(ctx): break
         obs, probs, mism = confirmed(ctx, case, mo)
         nontriv = any(case['msgs'])
         ctx.count({k: case[k] for k in ('base', 'msgs', 'readys', 'answers')}, nontrivial=nontriv)
@@ -444,6 +465,7 @@ def run(ctx):
     # (d) real submitter threads
     nconc = 40 if quick else 400
     for _ in range(nconc):
+        if too_many(ctx): break
         case = gen_concurrent(rng)
         obs, probs, mism = check_concurrent(ctx, case)
         ctx.count({k: case[k] for k in ('base', 'progs', 'readys', 'answers')}, nontrivial=True)
